@@ -307,6 +307,9 @@ def run(chk, repo):
     chk.rule('C15.m', 'R-KEYS (shared with C13.b): the INFO column writes every attribute of a fusion record, positions shifted +1 and read back -1', 2)
     chk.clauses.append('C15.m (shared with C13.b) every attribute of a fusion record is written to the INFO column (ACCEPTER_POSITION = 0 included) with position attributes shifted +1, and read back -1')
     info_shift_rules(chk, repo, 'C15.m')
+    from rules.shared import memo_shared
+    chk.clauses.append('C15.n (shared with C13.i) a GVF block is parsed afresh on every load: the fusion records whose breakpoints are shifted in place are never handed out a second time')
+    memo_shared(chk, repo, 'C15.n', ['seqvar', 'circ'], floor=0)
     from rules.C06 import rule_identity
     chk.clauses.append('C15.l (shared with C06.g) the identity (hash / eq) of a variant record covers the fusion acceptor attributes: set() de-duplication cannot merge two fusions of one donor breakpoint')
     rule_identity(chk, repo, 'C15.l')
